@@ -59,9 +59,28 @@ def _param(key, value, token_form):
     return '%s="%s"' % (key, value.replace('\\', '\\\\').replace('"', '\\"'))
 
 
-def ext_value(charset, lang, text):
+def ext_value(charset, lang, text, enc='attr'):
+    """RFC 5987 3.2.1 ext-value.  enc: 'attr'  attr-chars literal, everything else %XX (the RFC's own grammar);
+    'all'   only RFC 3986 unreserved literal (urllib.parse.quote(safe=''));
+    'lower' like 'attr' with lower-case hex digits;  'full' every byte percent-encoded."""
     raw = text.encode(charset)
-    return "%s'%s'%s" % (charset, lang, quote(raw, safe=ATTR_CHARS))
+    if enc == 'all':
+        v = quote(raw, safe='')
+    elif enc == 'full':
+        v = ''.join('%%%02X' % c for c in raw)
+    else:
+        v = quote(raw, safe=ATTR_CHARS)
+        if enc == 'lower':
+            out, i = [], 0
+            while i < len(v):
+                if v[i] == '%':
+                    out.append(v[i:i + 3].lower())
+                    i += 3
+                else:
+                    out.append(v[i])
+                    i += 1
+            v = ''.join(out)
+    return "%s'%s'%s" % (charset, lang, v)
 
 
 def header_block(part):
@@ -73,7 +92,7 @@ def header_block(part):
     if part.filename is not None:
         fn.append(_param('filename', part.filename, st.get('token', False)))
     if part.ext is not None:
-        fn.append('filename*=' + ext_value(*part.ext))
+        fn.append('filename*=' + ext_value(*part.ext, enc=st.get('ext_enc', 'attr')))
     if st.get('ext_first'):
         fn.reverse()
     params += fn
